@@ -115,7 +115,7 @@ def main() -> None:
     man = {
         'version': 1,
         'setup_cmd': 'cd /verif && /venv/bin/python -B -c "import sys; sys.path.insert(0, \'/verif\'); '
-                     'from mc import selftest_rp66; selftest_rp66.run()"',
+                     'from mc import selftest_rp66, selftest_dlisio; selftest_rp66.run(); selftest_dlisio.run()"',
         'hooks': {'guard': 'WELL_ID_DLISWRITER_VERIF',
                   'enable': 'none needed: checks import /repo/src directly and observe from outside (file bytes, '
                             'exceptions, monkeypatched taps installed by the harness); the guard variable is set but no '
